@@ -45,13 +45,24 @@ def _guard_update_external(src):
     return None
 
 
-def _guard_disable(src):
-    s = src.replace(' ', '')
-    if s in ("getattr(self,'_disable_sync_link_manager',False)", 'self._disable_sync_link_manager',
-             'self._disable_sync_link_manager>0'):
-        return 'true'
-    if s in ('notself._disable_sync_link_manager', 'self._disable_sync_link_manager==0'):
-        return 'false'
+def _guard_disable(test, fnode=None, selfname='self'):
+    """'true' when the test holds exactly when link-manager updates are suppressed, 'false' when it holds exactly when they
+    are not; None otherwise.  The test is read as a formula (local names expanded, negations / comparisons with 0 normalised)."""
+    from .. import cond
+    if isinstance(test, str):
+        test = ast.parse(test, mode='eval').body
+    f = cond.formula(test, fnode)
+    fld = '%s._disable_sync_link_manager' % selfname
+    forms = [cond.T("getattr(%s,'_disable_sync_link_manager',False)" % selfname), cond.T(fld), cond.T('lt|0|%s' % fld),
+             cond.Not(cond.T('eq|0|%s' % fld)), cond.T("getattr(%s,'_disable_sync_link_manager',0)" % selfname)]
+    for a in forms:
+        try:
+            if cond.equivalent(f, a):
+                return 'true'
+            if cond.equivalent(f, cond.Not(a)):
+                return 'false'
+        except ValueError:
+            return None
     return None
 
 
@@ -105,7 +116,7 @@ def rule_a(ctx, ix):
                 v = cs[0].args[1]
             if v is not None:
                 t = unparse(v).replace(' ', '')
-                ok = t in ('notself._disable_sync_link_manager', 'True', 'self._disable_sync_link_manager==0')
+                ok = t == 'True' or _guard_disable(v, f.node, f.self_name) == 'false'
                 detail = '%s passes update_external=%s: links are ingested without recomputing what the datasets can derive' \
                          % (f.construct, unparse(v))
         ctx.ob(R, f.construct, 'delegates to LinkManager.%s with recomputation on (unless suppressed)' % target, ok,
@@ -143,8 +154,8 @@ def rule_a(ctx, ix):
     U = set(common.nodes_where(cfg, lambda e: common.has_call(e, UPDATE)))
     pruned = set()
     for n in cfg.nodes():
-        if cfg.kind[n] == 'if' and _guard_disable(unparse(cfg.stmt[n].test)):
-            pruned.add((n, _guard_disable(unparse(cfg.stmt[n].test))))
+        if cfg.kind[n] == 'if' and _guard_disable(cfg.stmt[n].test, f.node, f.self_name):
+            pruned.add((n, _guard_disable(cfg.stmt[n].test, f.node, f.self_name)))
     from ..cfg import ENTRY
     path = cfg.path_avoiding(ENTRY, EXIT, avoid=U, labels_excluded=('exc', 'raise'), pruned_edges=pruned)
     ctx.ob(R, f.construct, 'unless suppressed, synchronising recomputes the externally derivable components', path is None and bool(U),
